@@ -273,5 +273,5 @@ def run(ctx):
                 'only exit-code-neutral findings / nothing reported)')
     _replay_known(ctx)
     _clean_and_neutral(ctx)
-    n = ctx.n(80, 4000)
+    n = ctx.n(80, 2500)
     runner.pmap(lambda i: _case(ctx, i), range(n), workers=8)
